@@ -74,3 +74,33 @@ def dep_src(crate):
     ver = m.group(1)
     hits = glob.glob(os.path.expanduser("~/.cargo/registry/src/*/%s-%s" % (crate, ver)))
     return (hits[0] if hits else None), ver
+
+
+def emojicon_tables():
+    """Generated data tables of the pinned emojicon crate (line-oriented Rust literals):
+    returns dict(names={name:[emoji]}, bengali={...}, emoticons={emoticon: emoji}, version=…) or None."""
+    src, ver = dep_src("emojicon")
+    if not src:
+        return None
+    cargo = open(os.path.join(REPO, "Cargo.toml"), encoding="utf-8").read()
+    custom = bool(re.search(r'emojicon\s*=\s*\{[^}]*features\s*=\s*\[[^\]]*"custom"', cargo))
+
+    def multi(fname):
+        out = {}
+        txt = open(os.path.join(src, "src", fname), encoding="utf-8").read()
+        for m in re.finditer(r'^\s*\("((?:[^"\\]|\\.)*)",\s*&\[(.*?)\]\),\s*$', txt, flags=re.M):
+            name = bytes(m.group(1), "utf-8").decode("unicode_escape").encode("latin-1").decode("utf-8") if "\\" in m.group(1) else m.group(1)
+            items = re.findall(r'"((?:[^"\\]|\\.)*)"', m.group(2))
+            out[name] = items
+        decl = re.search(r"\);\s*(\d+)\]\s*=", txt)
+        return out, (int(decl.group(1)) if decl else None)
+
+    names, n1 = multi("emoji.rs" if custom else "gemoji.rs")
+    bengali, n2 = multi("bn_emojis.rs")
+    emot = {}
+    txt = open(os.path.join(src, "src", "emoticons.rs"), encoding="utf-8").read()
+    for m in re.finditer(r'^\s*\("((?:[^"\\]|\\.)*)",\s*"((?:[^"\\]|\\.)*)"\),\s*$', txt, flags=re.M):
+        k = m.group(1).replace('\\"', '"').replace("\\\\", "\\")
+        emot[k] = m.group(2)
+    return {"names": names, "bengali": bengali, "emoticons": emot, "version": ver, "custom": custom,
+            "declared": {"names": n1, "bengali": n2}}
